@@ -17,6 +17,10 @@ from .checks import CHECKS
 VERIF = build.VERIF
 EVID = os.path.join(VERIF, "evidence")
 REPLAYS = os.path.join(VERIF, "replays")
+if os.path.realpath(build.REPO) != "/repo":
+    # a run against a scratch tree must not overwrite the evidence / replays of the real tree
+    EVID = os.path.join(build.BUILD, "evidence")
+    REPLAYS = os.path.join(build.BUILD, "replays")
 MAXPROC = int(os.environ.get("VERIF_JOBS", "16"))
 LAST_STDERR = ""
 
